@@ -56,7 +56,7 @@ PROPS = {
         oracle="CafsCheck.c01_ok (every read style returns the content / its window; Written = length)",
         theorems_named="C01_put / C01_chunking_irrelevant / C01_layout / C01_read_*",
         assumptions=[
-            "leaf size > 0; the hash H is arbitrary for the writer theorems",
+            "leaf size > 0; the hash H is arbitrary for the writer theorems; C01_roundtrip assumes 64-byte digests, nocoll for the content, and a store holding no conflicting non-empty blob under the object's keys (clean)",
             "one Write call = one chunk as io.Copy hands it over (32 KiB reads, or everything at once for a WriterTo source)",
             "leaf streams follow the io.Reader contract: at least one byte per call when space and data remain, EOF with the last bytes or on a separate call (oracle-quantified)",
             "LRU cache, free list and prefetcher of the reader are not modelled; only their visible results are compared (cold caches, prefetch 0..3)",
@@ -72,7 +72,7 @@ PROPS = {
         oracle="CafsCheck.c02_ok (key = Gallina BLAKE2b tree key = hashlib key; Found iff root present; prior blobs unchanged)",
         theorems_named="C02_key_function / C02_duplicate / C02_others_intact / C02_injective",
         assumptions=[
-            "collision freedom of the hash appears as an explicit hypothesis (H_inj) where a statement needs it; it is a cryptographic assumption, not an axiom",
+            "collision freedom appears as the explicit hypothesis nocoll (no input collides with an honest input of the content, jointly in tree parameters and data) where a statement needs it; a cryptographic assumption, not an axiom, and satisfiable by 64-byte hashes (C01_premises_satisfiable) unlike global injectivity",
             "parallel flushes are modelled in index order; the final store as a map does not depend on their completion order because the keys written are pairwise distinct under H_inj",
             "memstore reports no CRC32C, so the CRC branch of existsAndValidBlob is not exercised",
         ],
@@ -86,7 +86,7 @@ PROPS = {
         oracle="CafsCheck.c03_ok (every probe on a damaged store either fails or returns the right bytes)",
         theorems_named="C03_read_at / C03_read_seq / C03_write_to_at",
         assumptions=[
-            "collision freedom of the hash, jointly in tree parameters and data, and 64-byte digests: explicit hypotheses of the theorems (cryptographic assumption)",
+            "nocoll: no input collides with an honest input of the content (jointly in tree parameters and data), and 64-byte digests: explicit, satisfiable hypotheses of the theorems (cryptographic assumption)",
             "a sequential Read hands bytes of a leaf to the caller before that leaf is verified; the statement is about reads that reach EOF without error (io.Copy semantics)",
             "readers are created on cold key and leaf caches (a warm cache serves verified content)",
             "bundle download = WriteTo through a WriterAt per file; the bundle-level path is exercised by the C04 harness",
